@@ -30,7 +30,7 @@ DEADLINE_S = {'quick': 240, 'thorough': 2400}
 
 
 def budget(tier):
-	return {'quick': 250, 'thorough': 5000}[tier]
+	return {'quick': 500, 'thorough': 5000}[tier]
 
 
 def run_case(case, ctx):
